@@ -198,6 +198,12 @@ def c01_catalogue(quick):
                                                                  dict(to=4, spelling='/dir/sub/deep.html#a/../../b'), 5]),
             U(3, path='/dir/other.html'), U(4, path='/dir/sub/deep.html'), U(5, path='/dir/last.html')]
     out.append(scenario('fragment-with-dot-segments', fdot, N=1))
+    # "pretty" URLs, documents kept on disk: a page that is also the parent of a page that is also a parent (the file
+    # of the one stands where the directory of the other belongs - twice on one path)
+    pretty = [U(1, links=[2]), U(2, path='/blog', links=[3]), U(3, path='/blog/post1', links=[4, 5]),
+              U(4, path='/blog/post1/comments', links=[6]), U(5, path='/blog/post1/comments/latest'),
+              U(6, path='/blog/post2')]
+    out.append(scenario('pretty-urls-kept-on-disk', pretty, dict(cont=1), N=1))
     # recursive FTP: the entries of a listing are the links of a directory, whatever characters their names have
     out.append(ftp_scenario('ftp-tree-N1'))
     out.append(ftp_odd_names_scenario('ftp-odd-names-N1'))
